@@ -445,6 +445,7 @@ def generate(src_dir):
         ("xf_reset_stmt", slist(reset)),
         ("xf_offset_init", slist(connection_offset_init(disp))),
         ("xf_observer_state", slist(observer_state(srv))),
+        ("xf_file_ctx_aexit", slist(stmts(find_method(ctxcls, "__aexit__").body))),
         ("xf_worker_fs_calls", slist(worker_fs_calls(nested_fn(stor, "stor_worker")) + ["--"] + worker_fs_calls(nested_fn(retr, "retr_worker")))),
         ("xf_backend_wiring", slist(wiring)),
         ("xf_nursery_call", slist(stmts(find_method(nursery, "__call__").body))),
